@@ -100,6 +100,10 @@ def _run(loop, params, chooser):
 
         @asyncio.coroutine
         def process(self, item):
+            if not isinstance(item, str):
+                # e.g. the queue's poison pill handed to a task: keep the log sortable and
+                # let the oracle report it as an item the source never supplied
+                item = 'NOT-AN-ITEM:%s' % type(item).__name__
             log.append(('start', self.t, item))
             yield from env.gate('task:%d:%s' % (self.t, item))
             if fail_task is not None and list(fail_task) == [self.t, item]:
